@@ -641,6 +641,18 @@ def ob_function_forms(Ne, nPg, dim):
                 raise Refuted(f"{form} ({what}; Ne={Ne}, nPg={nPg}, dim={dim}): shape {np.shape(got)}; `a @ b`, the product at every (e, p), has shape {want.shape}"
                               + ("" if np.shape(got) != want.shape else f", max difference {np.abs(np.asarray(got) - want).max():.3e}"),
                               cex=dict(Ne=Ne, nPg=nPg, dim=dim, operands=what, form=form), signature=f"function:matmul:{form}", replay=dict(confirmed=True))
+    # a scalar field given as the `where=` mask of an elementwise function selects whole tensors at the points where it holds
+    Mw, sw = fld(dim, dim), fld()
+    buf = FeArray.asfearray(np.full((Ne, nPg, dim, dim), -7.0))
+    try:
+        got = np.add(Mw, 1.0, where=(sw > 0), out=buf)
+    except Exception as ex:
+        raise Refuted(f"np.add(matrix field, 1.0, where=(scalar field > 0), out=buffer) raises {type(ex).__name__}: {ex}", cex=dict(Ne=Ne, nPg=nPg, dim=dim), signature="function:where:raises", replay=dict(confirmed=True))
+    want = np.where((np.asarray(sw) > 0)[:, :, None, None], np.asarray(Mw) + 1.0, -7.0)
+    n += 1
+    if np.shape(got) != want.shape or not np.array_equal(np.asarray(got), want):
+        raise Refuted(f"np.add(matrix field, 1.0, where=(scalar field > 0), out=buffer) (Ne={Ne}, nPg={nPg}, dim={dim}): the mask is not applied point by point (max difference "
+                      f"{np.abs(np.asarray(got) - want).max() if np.shape(got) == want.shape else 'shape'})", cex=dict(Ne=Ne, nPg=nPg, dim=dim), signature="function:where:value", replay=dict(confirmed=True))
     # fields of different tensor extents joined along a tensor axis
     a2, b3 = fld(2), fld(dim)
     try:
